@@ -192,7 +192,8 @@ def s_image(draw, hmin=2, wmin=2, smax=40, masks=("all", "random", "blob", "sing
     for nm in names:
         n = draw(st.integers(1, 5))
         fr = draw(st.lists(st.lists(gen.q(0.1, 0.9, 256), min_size=2, max_size=2), min_size=n, max_size=n))
-        lms.append([nm, {"kind": draw(st.sampled_from(LM_KINDS)), "fr": fr}])
+        # a group's coordinates may be integer-typed (clicked pixel positions, box corners): rounded, stored as int64
+        lms.append([nm, {"kind": draw(st.sampled_from(LM_KINDS)), "fr": fr, "int": draw(st.sampled_from([False, False, True]))}])
     c["lms"] = lms
     return c
 
@@ -280,6 +281,10 @@ def build_image(c):
     if "affine" in c:
         off, gain = c["affine"]
         px[...] = (off + gain * px.astype(np.float64)).astype(px.dtype)
+    for nm, spec in c.get("lms", []):
+        if spec.get("int"):
+            g = im.landmarks[nm]
+            g.points = np.round(g.points).astype(np.int64)
     for k, v in c.get("const_channels", []):
         if k < px.shape[0]:
             px[k] = v
